@@ -61,6 +61,11 @@ func runRounds(args []string) (map[string]any, error) {
 		f.Close()
 	}
 	r := rand.New(rand.NewSource(*c.seed))
+	if *c.n > 0 {
+		// the size limit from below: one short history around a value of exactly the largest accepted size
+		tid++
+		exec.RunRounds(w, in, st, tid, exec.GenRoundsMaxVal(r))
+	}
 	for i := 0; i < *c.n; i++ {
 		tid++
 		exec.RunRounds(w, in, st, tid, exec.GenRounds(r, true))
